@@ -409,6 +409,32 @@ theorem metaPrepare_spec {nd : Node} (inv : MetaInv nd) :
   | tagKey m k => simp only [Node.mview, Node.metaPrepare, SchemaStore.tagKeyView, sl]
   | tagValue tk v => simp only [Node.mview, Node.metaPrepare, lookup_prepare]
 
+theorem metaDropEmpty_spec {nd : Node} (inv : MetaInv nd) :
+    MetaInv nd.metaDropEmpty ∧ (∀ k, nd.metaDropEmpty.mview k = nd.mview k) := by
+  obtain ⟨si, sl, _⟩ := schema_dropEmpty_spec inv.schema
+  refine ⟨⟨inv.le, seqInv_dropEmpty inv.ns, seqInv_dropEmpty inv.metric, seqInv_dropEmpty inv.tagValue, si⟩, ?_⟩
+  intro k
+  cases k with
+  | metric nb ns name =>
+    simp only [Node.mview, Node.getMetric, Node.metaDropEmpty, lookup_dropEmpty inv.ns.immE, lookup_dropEmpty inv.metric.immE]
+  | field m f => simp only [Node.mview, Node.metaDropEmpty, SchemaStore.fieldView, sl]
+  | tagKey m k => simp only [Node.mview, Node.metaDropEmpty, SchemaStore.tagKeyView, sl]
+  | tagValue tk v => simp only [Node.mview, Node.metaDropEmpty, lookup_dropEmpty inv.tagValue.immE]
+
+/-- `metricMetaDatabase.PrepareFlush` in either shape of its test -/
+theorem metaPrepareE_spec {nd : Node} (inv : MetaInv nd) (se : Bool) :
+    MetaInv (nd.metaPrepareE se) ∧ (∀ k, (nd.metaPrepareE se).mview k = nd.mview k) ∧
+    (nd.metaPrepareE se).shards = nd.shards ∧ (nd.metaPrepareE se).seqMem = nd.seqMem ∧ (nd.metaPrepareE se).seqMmap = nd.seqMmap := by
+  unfold Node.metaPrepareE
+  cases se with
+  | false =>
+    obtain ⟨a, v⟩ := metaPrepare_spec inv
+    exact ⟨by simpa using a, fun k => by simpa using v k, rfl, rfl, rfl⟩
+  | true =>
+    obtain ⟨a1, v1⟩ := metaDropEmpty_spec inv
+    obtain ⟨a2, v2⟩ := metaPrepare_spec a1
+    exact ⟨by simpa using a2, fun k => by simp [v2, v1], rfl, rfl, rfl⟩
+
 def Node.Synced (nd : Node) : Prop := nd.seqMmap = nd.seqMem
 
 /-- one step of `metricMetaDatabase.Flush`; the steps after `Sequence.Sync()` need the counters synced -/
